@@ -487,10 +487,10 @@ func familiesA(quick bool) []family {
 		fam = append(fam, two22("2 flash x 2 old (alphabet {a,;})", ft, ot))
 	} else {
 		fam = append(fam, two22("2 flash x 2 old (alphabet {a,NUL,;,é})", fs, os),
-			family{"2 flash (full alphabet) x 1 old (alphabet {a,NUL,;,é})", len(f1) * len(f1) * len(os), func(i int) caseA {
+			family{"2 flash (full alphabet) x 1 old (alphabet {a,;})", len(f1) * len(f1) * len(ot), func(i int) caseA {
 				a, i := i%len(f1), i/len(f1)
 				b, c := i%len(f1), i/len(f1)
-				return caseA{Flash: []fmsg{f1[a], f1[b]}, Old: []opair{os[c]}}
+				return caseA{Flash: []fmsg{f1[a], f1[b]}, Old: []opair{ot[c]}}
 			}},
 			family{"1 flash (full alphabet) x 2 old (alphabet {a,NUL,;,é})", len(f1) * len(os) * len(os), func(i int) caseA {
 				a, i := i%len(f1), i/len(f1)
